@@ -51,6 +51,7 @@ FIXES = [
  ('C10','the names shown for a merge conflict are those of that conflict','merge_conflict.rs: the ancestor/theirs commit names of an earlier (diff3-style) merge conflict were kept, so a later conflict without ancestor section - also in another file - was labelled `ancestor ⟶ HEAD`: a file section rendered differently depending on what preceded it'),
  ('C14','a hunk that starts with a merge conflict gets its hunk header','merge_conflict.rs: when the first line of a hunk of a combined diff was `++<<<<<<<`, the hunk header was never written and the syntax highlighter not set up for the hunk (conflict lines painted with the previous hunk\'s / file\'s highlighter state; also C10, C15)'),
  ('C19','hyperlinks in diffstat lines under --relative-paths point at the file','diff_stat.rs: under --relative-paths with GIT_PREFIX the link of a diffstat line joined the repository-relative path to the user\'s directory: `sub/a.rs` seen from sub/ linked to <root>/sub/sub/a.rs'),
+ ('C15','the lines of a removed file are highlighted in the language of that file','diff_header.rs: `+++ /dev/null` reset the language chosen at `--- a/file`, so the removed lines of a deleted file were painted with the default language (no highlighting under `--minus-style "syntax ..."` / side-by-side) although its name has a language'),
 ]
 out = []
 for prop, pat, what in FIXES:
